@@ -250,8 +250,20 @@ def run(F, chk):
                 for v in d.get("vars", []):
                     if is_node(v.get("init")) and any(x["k"] == "Ref" and x.get("id") in from_other for x in walk(v["init"])):
                         from_other.add(v["id"])
+    def _lc(n_):
+        try:
+            a_, b_ = (n_.get("loc") or "0:0").split(":")[:2]
+            return (int(a_), int(b_))
+        except ValueError:
+            return (0, 0)
+
+    # an assignment that is followed by Clear() (which resets the flags and drops the blocks) does not survive on that path
+    last_clear = max([_lc(n) for n in walk(copyfrom["body"]) if n["k"] == "Call" and n.get("fn") == "nifly::NifFile::Clear"
+                      and (n.get("recv") is None or n["recv"]["k"] == "This")] or [(0, 0)])
     for n in walk(copyfrom["body"]):
         tgt = None
+        if n["k"] in ("Assign", "OpCall") and _lc(n) < last_clear:
+            continue
         if n["k"] == "Assign":
             tgt = n["l"]
             src = n["r"]
